@@ -301,25 +301,27 @@ def updateRect (p : Params) (k : Task) : Option Rect :=
   coreUpdate (p.row.view k.mT k.mY) (p.col.view k.nT k.nY)
 
 /-- Element copies of a block between tile `(mY,nY)` of the source and tile `(mT,nT)` of the target
-    (tile storage: element `(a,b)` of tile `(m,n)` is global element `(m*mb + a, n*nb + b)`). -/
+    (tile storage: element `(a,b)` of tile `(m,n)` is global element `(mb*m + a, nb*n + b)`). -/
 def rectCopies (p : Params) (k : Task) (r : Rect) : List ECopy :=
   (List.range r.cols).flatMap fun b => (List.range r.rows).map fun a =>
-    ⟨k.mT * p.mbT + r.dI + a, k.nT * p.nbT + r.dJ + b, k.mY * p.mbY + r.sI + a, k.nY * p.nbY + r.sJ + b⟩
+    ⟨p.mbT * k.mT + r.dI + a, p.nbT * k.nT + r.dJ + b, p.mbY * k.mY + r.sI + a, p.nbY * k.nY + r.sJ + b⟩
 
-/-- Element copies through a packed buffer: `snd` fills the buffer from the source tile, `rcv` reads it.
-    Buffer element `(a,b)` lives at linear index `b * lda + a`; a read of a linear index that was never
-    written yields no copy (`none` is dropped) — a mismatch of the two shapes loses elements. -/
+/-- Which element of the source tile was packed at linear index `lin` of the flow's buffer by the send
+    block `snd` (`D_i = D_j = 0`, `D_lda = snd.rows`: element `(a,b)` of the block is at `b * rows + a`).
+    `none`: that index was never written. -/
+def bufSrc (snd : Rect) (lin : Nat) : Option (Nat × Nat) :=
+  if snd.rows = 0 then none
+  else if lin % snd.rows < snd.rows ∧ lin / snd.rows < snd.cols then
+    some (snd.sI + lin % snd.rows, snd.sJ + lin / snd.rows)
+  else none
+
+/-- Element copies through a packed buffer: `snd` fills the buffer from the source tile, `rcv` reads it
+    with `S_lda = rcv.rows`.  A read of an index that was never written yields no copy (dropped), so a
+    mismatch of the two shapes loses or misplaces elements. -/
 def viaBuffer (p : Params) (k : Task) (snd rcv : Rect) : List ECopy :=
   (List.range rcv.cols).flatMap fun b => (List.range rcv.rows).filterMap fun a =>
-    let lin := (rcv.sJ + b) * rcv.rows + rcv.sI + a
-    -- who wrote buffer[lin] ?  (snd.dI = snd.dJ = 0, lda = snd.rows)
-    if snd.rows = 0 then none else
-    let a' := lin % snd.rows
-    let b' := lin / snd.rows
-    if a' < snd.rows ∧ b' < snd.cols then
-      some ⟨k.mT * p.mbT + rcv.dI + a, k.nT * p.nbT + rcv.dJ + b,
-            k.mY * p.mbY + snd.sI + a', k.nY * p.nbY + snd.sJ + b'⟩
-    else none
+    (bufSrc snd ((rcv.sJ + b) * rcv.rows + rcv.sI + a)).map fun s =>
+      ⟨p.mbT * k.mT + rcv.dI + a, p.nbT * k.nT + rcv.dJ + b, p.mbY * k.mY + s.1, p.nbY * k.nY + s.2⟩
 
 /-- Copies of one `Update` instance; `remote k` says whether `rank_Y != rank_T` for its two tiles. -/
 def updateCopies (p : Params) (remote : Task → Bool) (k : Task) : List ECopy :=
